@@ -9,7 +9,8 @@
 (*            the next poll-before-lock): PTick? PLock PScanB PScanE PCmp    *)
 (*   S / SF   a Scan call (accelerated if possible / full)                   *)
 (*   W        a Poll call that returns (a signal is pending)                 *)
-(*   Tl(v)    a Transition call up to transition-after-unlock                *)
+(*   Tl(v)    a Transition call up to transition-after-unlock (Tlp: one that   *)
+(*            is going to fail part-way)                                     *)
 (*   Tw       ... its disk work, up to transition-before-relock              *)
 (*   Tr       ... the rest, Transition returns                               *)
 (*   E(v)     an external edit making the disk v                             *)
@@ -36,7 +37,7 @@ MP(x) == IF x.ppc \in {"tick", "lock"} /\ x.lock = "free"
 MS(x, full) == LET a == CScanLockF(x, full) IN
                {y \in a : y.cpc = "decide"} \cup Bind(Bind({y \in a : y.cpc = "sB"}, CScanB), CScanE)
 MW(x) == IF x.cpc = "decide" THEN Bind(CNoTransition(x), CPoll) ELSE CPoll(x)
-MTl(x, v) == Bind(CPlan(x, v), TLock)
+MTl(x, v, part) == Bind(CPlan(x, v, part), TLock)
 MTw(x) == TWrite(x)
 MTr(x) == TRelock(x)
 ME(x, v) == EditV(x, v)
@@ -50,7 +51,8 @@ Moves(x) ==
   \cup {<<L("S", ""), y>> : y \in IF Count("S") + Count("SF") < MaxS THEN MS(x, FALSE) ELSE {}}
   \cup {<<L("SF", ""), y>> : y \in IF FullScans /\ Count("S") + Count("SF") < MaxS /\ x.accel THEN MS(x, TRUE) ELSE {}}
   \cup {<<L("W", ""), y>> : y \in IF Count("W") < MaxW THEN MW(x) ELSE {}}
-  \cup UNION {{<<L("Tl", v), y>> : y \in MTl(x, v)} : v \in Vals}
+  \cup UNION {{<<L("Tl", v), y>> : y \in MTl(x, v, FALSE)} : v \in Vals}
+  \cup UNION {{<<L("Tlp", v), y>> : y \in IF PartialOutcomes THEN MTl(x, v, TRUE) ELSE {}} : v \in Vals}
   \cup {<<L("Tw", ""), y>> : y \in MTw(x)}
   \cup {<<L("Tr", ""), y>> : y \in MTr(x)}
   \cup UNION {{<<L("E", v), y>> : y \in ME(x, v)} : v \in Vals}
